@@ -32,6 +32,9 @@ THEOREMS = ['Props.C08.' + t for t in [
     'consistent_of_inv', 'checkInv_iff', 'inv_empty', 'inv_step', 'inv_run', 'inv_fromgeo', 'consistent_after_any_history',
     'rename_loses_no_block', 'rename_keeps_inv', 'grid_addition_consistent', 'embed_consistent',
     'block_index_correct', 'connection_index_correct',
+    'inv_step_unconditional', 'consistent_after_unconditional_edits', 'preTotal_of_unconditional', 'preTotal_of_pre',
+    'inv_step_total', 'reorder_unknown_name_raises', 'inv_run_total', 'consistent_after_any_history_total',
+    'preAllTotal_of_preAll', 'connection_record_by_name', 'delete_block_deletes_exactly_its_connections',
     'Examples.F1_add_block_replaces_connected_block', 'Examples.F2_rocktype_replaced_while_in_use',
     'Examples.F3_delete_rocktype_in_use']]
 LEVEL_TEXT = ('Proof: the consistency invariant Inv (lists and lookups describe the same objects under unique current names, connections join two '
@@ -43,6 +46,20 @@ LEVEL_TEXT = ('Proof: the consistency invariant Inv (lists and lookups describe 
               'rename_loses_no_block for every name map that keeps names distinct (swaps, cycles); block_index/connection_index correct. '
               'The three situations where the current code really breaks the invariant (F1 add_block over a connected name, F2 rock type replaced while '
               'in use, F3 delete_rocktype in use) are excluded by `pre`, proved to break Inv on a witness, replayed on the real code and listed as known findings. '
+              'Round 3: inv_step_unconditional - eight operations (rename_rocktype, clean/sort_rocktypes, delete_block, demote_block, delete_connection, minc, '
+              're-adding the same block) keep Inv for ANY argument, raising or not; consistent_after_unconditional_edits - any history of those from any consistent grid, no precondition. '
+              'preTotal_of_unconditional / preTotal_of_pre - the weakened precondition preTotal is constantly true on those eight and implied by pre. '
+              'inv_step_total - every operation keeps Inv under preTotal, which for reorder also admits every call with an unknown block name or unknown connection pair; '
+              'reorder_unknown_name_raises - those two branches explicitly (KeyError with the grid untouched; exception with the old connection list and a consistent state). '
+              'inv_run_total / consistent_after_any_history_total - the reachable-state theorem with a precondition demanded only for the operations of needsPre; '
+              'preAllTotal_of_preAll - it covers every history the earlier theorem covered. '
+              'connection_record_by_name - in every such reachable state k is in a block\'s connection_name iff k is a key of grid.connection and contains the block\'s name. '
+              'delete_block_deletes_exactly_its_connections - delete_block never raises on a consistent grid, removes the block, exactly the connections with it as an end '
+              '(list order kept, exactly the keys of its record leave the lookup and every other record) and touches nothing else; unknown name: no-op. '
+              'Still NOT proved without precondition (the code does not guard them; each leaves the grid inconsistent on a witness or is a known finding): add_rocktype/readd over an in-use name (F2), '
+              'delete_rocktype in use (F3), add_block over a connected name (F1) or with an unregistered rock-type object, add_connection with a block that is not the grid\'s or a self-connection, '
+              'reorder with known names that are not a permutation, rename_blocks with a colliding map, grid addition/embed outside their stated conditions. '
+              'check(fix=True) and copy_connection_directions remain outside the model. '
               'Tied to /repo by a correspondence run after every operation (exhaustive small scope + random histories on fromgeo grids) and an independent oracle.')
 LEVEL_NOTE = ('`pre` excludes exactly: argument misuse (foreign objects, self-connection, non-permutation lists, name maps that collide - the last by the property text) '
               'and the known findings F1-F3; every excluded class is run on the real code (corpus) and the harness reports how many explored cases met `pre`. '
